@@ -553,15 +553,34 @@ func genDataType(c *chooser, v primitive.ProtocolVersion, depth int) datatype.Da
 func genColumns(c *chooser, v primitive.ProtocolVersion, shape int, n int) []*message.ColumnMetadata {
 	cols := make([]*message.ColumnMetadata, n)
 	ks, tb := c.str(), c.str()
+	mode := 0
+	if shape == 2 {
+		mode = c.val(4)
+	}
 	for i := range cols {
 		col := &message.ColumnMetadata{Keyspace: ks, Table: tb, Name: fmt.Sprintf("c%d", i), Type: genDataType(c, v, 2)}
 		if c.val(6) == 0 {
 			col.Name = c.str()
 		}
 		if shape == 2 {
-			col.Table = cap16(fmt.Sprintf("%d_%s", i, tb)) // pairwise different: no global table spec as soon as n >= 2
-			if i%2 == 1 {
-				col.Keyspace = cap16("2" + ks)
+			// no global table spec as soon as n >= 2; the columns differ in the table, in the keyspace only, in the
+			// table only, or only the last column differs (each of these is a distinct way to get haveSameTable wrong)
+			switch mode {
+			case 0:
+				col.Table = cap16(fmt.Sprintf("%d_%s", i, tb))
+				if i%2 == 1 {
+					col.Keyspace = cap16("2" + ks)
+				}
+			case 1:
+				col.Keyspace = cap16(fmt.Sprintf("%d_%s", i, ks)) // same table name, different keyspaces
+			case 2:
+				col.Table = cap16(fmt.Sprintf("%d_%s", i, tb)) // same keyspace, different tables
+			default:
+				if i == n-1 && n >= 2 {
+					col.Keyspace = cap16("z" + ks) // only the last column is from elsewhere
+				} else if n < 2 {
+					col.Table = cap16("0_" + tb)
+				}
 			}
 		}
 		cols[i] = col
